@@ -421,7 +421,7 @@ func drawSpec(t *rapid.T) reqSpec {
 // mutation of one field of a valid request (re-signing nothing: intake does not verify signatures).
 func mutations() []string {
 	return []string{"none", "hash-other-alg", "hash-malformed", "hash-too-long", "hash-unknown-code", "alg-disabled", "crv-disabled", "nonce-wrong-size", "patch-disabled", "reveal-mismatch",
-		"alg-case-variant", "crv-case-variant", "short-digest", "reveal-of-other-key", "patch-unknown-action", "delta-missing", "signed-data-missing"}
+		"alg-case-variant", "crv-case-variant", "short-digest", "reveal-of-other-key", "reveal-respelled", "patch-unknown-action", "delta-missing", "signed-data-missing"}
 }
 
 func mutate(t *rapid.T, s reqSpec, mut string, p *Params) []byte {
@@ -511,6 +511,21 @@ func mutate(t *rapid.T, s reqSpec, mut string, p *Params) []byte {
 			if sg != nil {
 				req["revealValue"] = asm.Reveal(keys.Get(s.kt, "c10", 9), s.code)
 			}
+		case "reveal-respelled":
+			// another base64url spelling of the right hash: unused trailing bits of the last character, or a line break
+			if rv, ok := req["revealValue"].(string); ok && sg != nil && len(rv) > 2 {
+				const alphabet = "ABCDEFGHIJKLMNOPQRSTUVWXYZabcdefghijklmnopqrstuvwxyz0123456789-_"
+				switch rapid.IntRange(0, 2).Draw(t, "respelling") {
+				case 0:
+					i := strings.IndexByte(alphabet, rv[len(rv)-1])
+					req["revealValue"] = rv[:len(rv)-1] + string(alphabet[i^1])
+				case 1:
+					at := rapid.IntRange(0, len(rv)).Draw(t, "breakAt")
+					req["revealValue"] = rv[:at] + rapid.SampledFrom([]string{"\n", "\r", "\r\n"}).Draw(t, "lineBreak") + rv[at:]
+				default:
+					req["revealValue"] = rv + "="
+				}
+			}
 		case "delta-missing":
 			delete(req, "delta")
 		case "signed-data-missing":
@@ -543,7 +558,7 @@ func swapCase(s string) string {
 }
 
 func TestAcceptedImpliesRules(t *testing.T) {
-	ev.Rule(chkImplies, "rapid: valid requests of the four types (5 key types, both hash algorithms, optional nonce of right/wrong size, kid, window, 1-3 valid patches over all eight actions) with one drawn field mutation (hash field: other algorithm, malformed, too long, unknown code, short digest; signature algorithm / key curve disabled or case-variant; nonce size; patch action disabled / unknown; reveal value not the hash of the key; members removed) under a configuration adjusted by the mutation; oracle: Parse accepts => the independent predicate finds no violated rule (request size, canonical delta size, every hash field well-formed / allowed / within length, algorithm, curve, nonce size, patch actions, reveal == hash of key); accept rate is reported; non-trivial = a mutated request")
+	ev.Rule(chkImplies, "rapid: valid requests of the four types (5 key types, both hash algorithms, optional nonce of right/wrong size, kid, window, 1-3 valid patches over all eight actions) with one drawn field mutation (hash field: other algorithm, malformed, too long, unknown code, short digest; signature algorithm / key curve disabled or case-variant; nonce size; patch action disabled / unknown; reveal value not the hash of the key or another base64url spelling of it; members removed) under a configuration adjusted by the mutation; oracle: Parse accepts => the independent predicate finds no violated rule (request size, canonical delta size, every hash field well-formed / allowed / within length, algorithm, curve, nonce size, patch actions, reveal == hash of key); accept rate is reported; non-trivial = a mutated request")
 	ev.Rapid(t, chkImplies, 1500, 15000, func(t *rapid.T) {
 		s := drawSpec(t)
 		p := baseParams()
